@@ -4,6 +4,7 @@ from vf.common.core import Violation, run_hypothesis
 from vf.props import _session as SE
 
 ID = 'C10'
+USES_SIM = True
 LEVEL = 'exploration'
 RULE = ('simulated sessions (generator of C08/C09, generated schedules); the simulated network records every line of every '
         'connection in both directions with a global step number. Oracle: the complete server->client stream of each of '
